@@ -355,6 +355,19 @@ pub fn replacement_values() -> Vec<Option<Yaml>> {
     }
     v.push(Some(ystr(&"a".repeat(300))));
     v.push(Some(ystr(&format!("{}.com", "l".repeat(64)))));
+    // long values that are not ASCII, at every alignment of their characters (error messages
+    // quote the offending value, and whatever shortens or pads a quotation counts octets), alone
+    // and inside a collection
+    for lead in 0..4usize {
+        for unit in ["\u{e9}", "\u{20ac}", "\u{1f600}"] {
+            let t = format!("{}{}", "x".repeat(lead), unit.repeat(70));
+            v.push(Some(ystr(&t)));
+            if lead < 2 {
+                v.push(Some(ylist(vec![ystr(&t)])));
+                v.push(Some(ymap(vec![("prefix", ystr(&t))])));
+            }
+        }
+    }
     v
 }
 
@@ -370,6 +383,8 @@ pub fn key_replacements() -> Vec<Option<Yaml>> {
         Some(ystr("apply-client-id")),
         Some(ystr("dhcp")),
         Some(ystr("interface")),
+        Some(ystr(&format!("x{}", "\u{e9}".repeat(70)))),
+        Some(ystr(&format!("apply-{}", "\u{20ac}".repeat(60)))),
         Some(Yaml::Null),
         Some(Yaml::Integer(5)),
         Some(Yaml::Boolean(false)),
